@@ -533,4 +533,35 @@ theorem consistent_unique (W : World) (hd : Determinate W) (s s' : SemSt) (h : C
   · rw [h.errs t ht, h'.errs t ht, henv]
   · rw [h.nonunit t ht, h'.nonunit t ht]
 
+/-! ### the semantic `update` is the generic `updateG` at the semantic instance -/
+
+@[simp] theorem semUSys_toSys (W : World) : (semUSys W).toSys = semSys W := rfl
+@[simp] theorem semUSys_pm (W : World) : (semUSys W).processModule = processModule W := rfl
+@[simp] theorem semUSys_et (W : World) : (semUSys W).errTargets = errTargets W := rfl
+
+theorem updateLoop_eq (W : World) : ∀ (X : List Mod) (u : UpdSt) (last : Option Mod),
+    updateLoopG (semUSys W) X u.toG last = (updateLoop W X u last).map (fun r => (r.1.toG, r.2))
+  | [], u, last => rfl
+  | m :: rest, u, last => by
+    simp only [updateLoopG, updateLoop, semUSys_toSys, semUSys_pm, semUSys_et, UpdSt.toG]
+    cases hp : propagate (semSys W) MAX_ITER (processModule W u.st m).1 (processModule W u.st m).2 [m] [] [] with
+    | maxIter _ => rfl
+    | done s r => exact updateLoop_eq W rest { st := s, prevErr := u.prevErr ++ errTargets W s } (some m)
+
+theorem update_eq (W : World) (u : UpdSt) (C : List Mod) :
+    updateG (semUSys W) u.toG C = (update W u C).map UpdSt.toG := by
+  unfold updateG update
+  by_cases h : C.isEmpty
+  · simp [h]
+  · simp only [h, Bool.false_eq_true, if_false]
+    rw [updateLoop_eq]
+    cases updateLoop W C u none with
+    | none => rfl
+    | some r =>
+      obtain ⟨u1, last⟩ := r
+      simp only [Option.map, semUSys_toSys, semUSys_et, UpdSt.toG]
+      cases hp : propagate (semSys W) MAX_ITER u1.st [] last.toList u1.prevErr [] with
+      | maxIter _ => rfl
+      | done s r => rfl
+
 end FineGrained
